@@ -46,6 +46,7 @@ def cell_pipeline(cell):
     observers = [mon]
     for seed in cell['seeds']:
         case = engine.Case(cell['lang'], seed, cell.get('switches', ()), cell.get('max_depth'))
+        case.pool_seed = cell.get('pool_seed', 0)
         engine.run_case(heph, case, observers,
                         n_transformations=cell.get('transformations', 2),
                         inject=cell.get('inject', True), translate=cell.get('translate', True))
@@ -100,7 +101,8 @@ def replay(prop, path):
         print('no case in witness')
         return 3
     cell = {'prop': prop, 'lang': case['lang'], 'switches': case.get('switches', []),
-            'max_depth': case.get('max_depth'), 'seeds': [case['seed']]}
+            'max_depth': case.get('max_depth'), 'seeds': [case['seed']],
+            'pool_seed': case.get('pool_seed', 0)}
     cell.update((w.get('witness') or {}).get('cell_extra', {}))
     results = common.run_cells('vf.labs.pipeline:cell_pipeline', [cell], 'replay-%s' % prop, timeout=1500)
     _, res, status = results[0]
